@@ -719,11 +719,16 @@ class Run:
                 self.assume(f)
 
     def type_fact(self, v, t):
+        import re as _re
+
+        while "[" in t:  # element types are not part of the container's own type fact
+            t2 = _re.sub(r"\[[^\[\]]*\]", "", t)
+            if t2 == t:
+                break
+            t = t2
         alts = [x.strip() for x in t.split("|")]
         fs = []
         for x in alts:
-            if "[" in x:
-                x = x[: x.index("[")]
             if x == "any":
                 return None
             if x == "int":
